@@ -808,3 +808,56 @@ Definition run_quote (root_is_quote : bool) (arg : model) : M value :=
   end.
 
 End Eval.
+
+(* ------------------------------------------------------------------ models the constructors can return *)
+(* A model built by the constructors of hy.models (directly or by the reader):
+   no FString has two adjacent String children (the constructor joins them),
+   no bracket string contains its own closing delimiter (the constructors
+   raise ValueError), and the imaginary part of a Complex is a fixed point of
+   0 + x (see wf_cpx below). *)
+Fixpoint no_adj_str (l : list model) : bool :=
+  match l with
+  | [] => true
+  | MStr _ _ :: r => match r with MStr _ _ :: _ => false | _ => no_adj_str r end
+  | _ :: r => no_adj_str r
+  end.
+
+Fixpoint m_string_in_node (pat : text) (m : model) : bool :=
+  match m with
+  | MStr s _ => infix pat s
+  | MSeq (KFString _ _) items | MSeq (KFComp _ _ _) items =>
+      (fix any (l : list model) : bool :=
+         match l with [] => false | x :: r => m_string_in_node pat x || any r end) items
+  | _ => false
+  end.
+
+(* [cpx] = true: also demand that Complex imaginary parts survive 0 + x *)
+Fixpoint wf_gen (cpx : bool) (m : model) : bool :=
+  match m with
+  | MCpx _ im => if cpx then N.eqb (add0 im) im else true
+  | MStr s (Some b) => negb (infix (close_pat b) s)
+  | MSeq k items =>
+      (fix all (l : list model) : bool :=
+         match l with [] => true | x :: r => wf_gen cpx x && all r end) items
+      && match k with
+         | KFString br _ =>
+             no_adj_str items
+             && match br with Some b => negb (m_string_in_node (close_pat b) m) | None => true end
+         | _ => true
+         end
+  | _ => true
+  end.
+
+Definition wf_ctor (m : model) : bool := wf_gen false m.
+Definition wf (m : model) : bool := wf_gen true m.
+
+Definition opt_kwv (name : text) (o : option text) : kwargs :=
+  match o with Some b => [(name, PStr b)] | None => [] end.
+Definition flag_kwv (name : text) (b : bool) : kwargs :=
+  if b then [(name, PBool true)] else [].
+Definition attr_kws (k : seqkind) : kwargs :=
+  match k with
+  | KFString br ts => opt_kwv s_brackets br ++ flag_kwv s_is_tstring ts
+  | KFComp cv ex ts => opt_kwv s_conversion cv ++ opt_kwv s_expression ex ++ flag_kwv s_is_tstring ts
+  | _ => []
+  end.
